@@ -1,9 +1,15 @@
 import NdnModel.Framing
+import NdnModel.StreamReader
 import NdnModel.ReceiveBytes
 import NdnModel.Sha256
 import NdnGen.C06
 /-  Line protocol for the C06 models.
     `C06 frames <hex>`                → `ok <typ>:<hex>,… | <remhex>`   (`.` = no packet)
+    `C06 chunks <hex>|<hex>|…|<end>`  the chunked machine (NdnModel/StreamReader.lean) fed the chunks one by one
+        (`-` = empty chunk), then <end> ::= eof | reset | other | none
+        → `ok <n1>,<n2>,… ; <typ>:<hex>,… | <remhex> ; <status>`   n_i = number of packets handed over after the
+        i-th event (the end counts as an event), the packets, the bytes the face held before the end
+        (`bio` ++ reader buffer), status ::= running | shutdown | crashed:<cls>
     `C06 udp <hex>`                   → `ok none` | `ok <typ>` | `err <cls>`
     `C06 recv <v2|v1> <pit> <fib> <pkt> <pkt> …`
         pit  ::= `.` | entry;entry…      entry ::= <name>=<pend>+<pend>…   pend ::= <id>/<0|1>/<digesthex>
@@ -115,8 +121,35 @@ def runBoth (g : Guards) (st : State) (ps : List (Nat × Decoders × Option Byte
   | some ws => "#" :: runPkts (fun st (p : Nat × Bytes) => RecvBytes.receiveBytes g Sha256.sha256 st p.1 p.2) st ws
   | none => []
 
+def showPkts (ps : List (Nat × Bytes)) : String :=
+  if ps.isEmpty then "." else ",".intercalate (ps.map fun p => toString p.1 ++ ":" ++ toHex p.2)
+
+def parseEnd (s : String) : Option (List StreamReader.Event) :=
+  if s == "eof" then some [.feedEof]
+  else if s == "reset" then some [.setException .connectionReset]
+  else if s == "other" then some [.setException .other]
+  else if s == "none" then some []
+  else none
+
+def showStatus : StreamReader.Status → String
+  | .running => "running" | .shutdown => "shutdown" | .crashed e => "crashed:" ++ e.name
+
+def chunked (spec : String) : String :=
+  let toks := spec.splitOn "|"
+  match toks.dropLast.mapM fromHex, toks.getLast?.bind parseEnd with
+  | some cs, some fin =>
+    let caught := Gen.C06.streamCaught
+    let before := StreamReader.run caught (cs.map .feed)
+    let tr := StreamReader.trace caught (cs.map .feed ++ fin)
+    let last := StreamReader.run caught (cs.map .feed ++ fin)
+    "ok " ++ (if tr.isEmpty then "." else ",".intercalate (tr.map fun a => toString a.2.length))
+      ++ " ; " ++ showPkts last.2 ++ " | " ++ toHex (before.1.phase.bio ++ before.1.reader.buf)
+      ++ " ; " ++ showStatus last.1.status
+  | _, _ => "bad-op"
+
 def handle (args : List String) : String :=
   match args with
+  | ["chunks", spec] => chunked spec
   | ["frames", h] =>
     match fromHex h with
     | some s =>
